@@ -184,6 +184,10 @@ def build_policy(pol, flags):
         return S.FIFOScheduler(preemptive=False, runtime=rt, enforce_deadlines=pol.get("enforce_deadlines", False), _flags=flags)
     if name == "LSF":
         return S.LSFScheduler(preemptive=False, runtime=rt, _flags=flags)
+    if name == "Scripted":
+        from pbt.scripted import ScriptedPlanner
+
+        return ScriptedPlanner(pol["script"], batching=pol.get("batching", False), lookahead=pol.get("lookahead", 0), _flags=flags)
     common = dict(
         preemptive=False,
         runtime=rt,
